@@ -9,35 +9,38 @@
      Model/CteEnc.v   cte_encode                       (cte/encoder*.go)
      Model/CteRead.v  cte_read                         (cte/parser.go + the generated lexer/parser)
      Model/Denote.v   den: "the same data"
-   plus what is new here: the three classes of strings that the binary side passes on
-   unexamined and the text side has to spell —
+   plus what is new here: the three classes of strings that the binary side admits and the
+   text side has to spell —
 
      identifiers   rules/context_array.go ValidateIdentifier (chars.IsIdentifierSafe)
                    vs CTELexer.g4 IDENTIFIER = CHAR_IDENTIFIER+          ([ident_valid], [ident_lexable])
-     media types   rules ValidateContentsStringlike (any valid UTF-8, the empty string included;
-                   cbe/decoder.go decodeMedia reads any bytes), written verbatim by
+     media types   rules ValidateContentsStringlike + ValidateMediaType (valid UTF-8 of the shape
+                   letter NEXT* '/' NEXT+, [Rules.media_type_valid]; cbe/decoder.go decodeMedia reads
+                   any bytes and leaves the verdict to the validator), written verbatim by
                    cte/encoder_array.go EncodeMedia / BeginMedia ("@%v[")
                    vs CTELexer.g4 MEDIA_TYPE = [a-zA-Z] NEXT* '/' NEXT+   ([media_lexable])
      area/location time-zone names
-                   go-compact-time decoder.go decodeTimezone (any 1..127 bytes; no validation
-                   anywhere on the binary side: neither cbe/decoder_reader.go ReadTime nor
-                   rules OnTime call Time.Validate), written verbatim by
+                   go-compact-time decoder.go decodeTimezone (any 1..127 bytes), then
+                   cbe/decoder_reader.go validateTime: Time.Validate() and, for area/location
+                   zones, the long name must be [A-Z][a-zA-Z0-9_.\-/+]*; written verbatim by
                    cte/encoder_writer.go WriteTime (LongAreaLocation)
                    vs CTELexer.g4 TZ_AREALOC = '/' [A-Z] AREA_NEXT*       ([area_lexable])
 
-   and the time values themselves: the CBE reader hands on whatever the bit fields hold
-   (hour 0..31, minute and second 0..63, month 0..15, day 0..31, year 0, nanoseconds up to
-   2^30-1, any 15/16-bit latitude/longitude, any 12-bit UTC offset), the CTE listener
-   (cte/parser.go parseTime / parseDate / parseDateTime) calls Time.Validate.
-   [ctime] is the value the CBE reader builds, [time_string] is compact_time's Time.String()
-   of it (the payload of the ETime event, see Model/Events.v), [time_valid] is
-   Time.Validate(), [zone_lexable] the lexer's demand on the zone.
+   and the time values themselves: the bit fields of a CBE time can hold hour 0..31, minute and
+   second 0..63, month 0..15, day 0..31, year 0, nanoseconds up to 2^30-1, any 15/16-bit
+   latitude/longitude, any 12-bit UTC offset; cbe/decoder_reader.go validateTime (ReadDate /
+   ReadTime / ReadTimestamp) lets the zero value through and otherwise demands what the CTE
+   listener (cte/parser.go parseTime / parseDate / parseDateTime) demands: Time.Validate().
+   [ctime] is the value compact_time's decoder builds from the fields, [time_string] is
+   compact_time's Time.String() of it (the payload of the ETime event, see Model/Events.v),
+   [time_valid] is Time.Validate(), [zone_lexable] the lexer's demand on the zone,
+   [cbe_time_ok] is validateTime.
 
    Not modelled: the bit-level layout of times in CBE (go-compact-time is bit-packed;
-   Model/Cbe.v stops at the three time type codes), zero time values (IsZeroValue: the CTE
-   encoder writes "null" for them — found by the harness, key C03/cbe-cte/zero-time-as-null),
-   nanosecond fields of 10^9 and more (String() and WriteTime disagree on them; both are
-   rejected by the reader).
+   Model/Cbe.v stops at the three time type codes; [cbe_time_ok] is tied to the real decoder by
+   the CvTime cases), zero time values (IsZeroValue: the CTE encoder writes "null" for them —
+   open finding C03/cbe-cte/zero-time-as-null), nanosecond fields of 10^9 and more (String()
+   and WriteTime disagree on them; validateTime and the reader both refuse them).
 
    Executable definitions only; proofs are in Proofs/ConvertProofs.v. *)
 From CE Require Export Base.Prelude Base.Utf8 Model.Events.
@@ -55,8 +58,9 @@ Definition ident_valid (id : bytes) : bool := Rules.validate_identifier Rules.de
 Definition ident_lexable (id : bytes) : bool :=
   match runes id with [] => false | rs => forallb CteRead.ch_ident rs end.
 
-(* media types: the validator's test, the lexer's MEDIA_TYPE fragment on code points *)
-Definition media_valid (mt : bytes) : bool := utf8_valid mt.
+(* media types: the validator's test (ValidateContentsStringlike and ValidateMediaType), the lexer's
+   MEDIA_TYPE fragment on code points *)
+Definition media_valid (mt : bytes) : bool := utf8_valid mt && Rules.media_type_valid mt.
 Definition nonemptyb {A} (l : list A) : bool := match l with [] => false | _ => true end.
 Definition media_lexable_runes (s : list N) : bool :=
   match s with
@@ -179,6 +183,9 @@ Definition zone_lexable (z : tzone) : bool :=
 Definition time_lexable (t : ctime) : bool :=
   match t_type t with TDate => true | _ => zone_lexable (t_zone t) end.
 
+(* cbe/decoder_reader.go validateTime on a non-zero value: Validate() and the zone spelling *)
+Definition cbe_time_ok (t : ctime) : bool := time_valid t && time_lexable t.
+
 (* the zone as the text side names it after re-reading: a long name that is one of the
    UTC / Local aliases loses its spelling ("C/UTC" is read as "Etc/UTC", written "/Etc/UTC",
    and read back as plain UTC) *)
@@ -198,7 +205,7 @@ Definition time_canon (t : ctime) : ctime :=
 
 (* what the text side is predicted to make of the time: the canonical string, or a rejection *)
 Definition time_expected (t : ctime) : option bytes :=
-  if time_valid t && time_lexable t then Some (time_string (time_canon t)) else None.
+  if cbe_time_ok t then Some (time_string (time_canon t)) else None.
 
 (* ------------------------------------------------------------------ *)
 (** * 3. The pipelines *)
@@ -305,9 +312,10 @@ Inductive convert_case :=
 | CvEvents (es : list event) (text : option bytes) (reread : option (list event)) (same : bool)
 (* a CTE document: accepted by cte.Decoder -> rules, has custom text, the CBE document, same data *)
 | CvCte (text : bytes) (accepted : bool) (custom_text : bool) (doc : option bytes) (same : bool)
-(* a time as the CBE reader builds it: Time.String(), and what the text side reads from the
-   encoder's spelling (the re-read time's String(); None: rejected) *)
-| CvTime (t : ctime) (string : bytes) (reread : option bytes)
+(* a time as compact_time builds it from the CBE fields: Time.String(), whether cbe.Decoder accepts the
+   document holding it (validateTime), and what the text side reads from the CTE encoder's spelling of
+   that value (the re-read time's String(); None: rejected) *)
+| CvTime (t : ctime) (string : bytes) (cbe_accepts : bool) (reread : option bytes)
 (* a byte string as identifier: the validator's verdict, and whether the lexer reads "&id:" back *)
 | CvIdent (id : bytes) (rules_ok lexed : bool)
 (* a byte string as media type: the validator's verdict, and whether "@mt[01]" reads back as that media *)
@@ -343,8 +351,8 @@ Definition convert_case_ok (c : convert_case) : bool :=
                           | None => false
                           end) same)
       end
-  | CvTime t s reread =>
-      bytes_eqb (time_string t) s &&
+  | CvTime t s acc reread =>
+      bytes_eqb (time_string t) s && Bool.eqb (cbe_time_ok t) acc &&
       option_eqb bytes_eqb (time_reread (time_string t)) reread &&
       option_eqb bytes_eqb (time_expected t) reread
   | CvIdent id rules_ok lexed =>
